@@ -62,8 +62,9 @@ def run(ctx):
         if drv:
             model = ctx.run_model("tv_c15", os.path.join(ctx.work, "ops.txt"))
             ctx.diff_lines("c15-inprocess", os.path.join(ctx.work, "ops.txt"), os.path.join(ctx.work, "impl.txt"), model)
-        # compiled part: thorough tier (set VERIF_C15_COMPILED=1 to force it in quick)
-        if ctx.tier == "thorough" or os.environ.get("VERIF_C15_COMPILED"):
+        # compiled part: quick = one small batch (3 programs whose main file has structs, a union, an exception,
+        # enums and typedefs), thorough = 16 programs
+        if True:
             cdir = os.path.join(ctx.work, "compiled")
             os.makedirs(cdir, exist_ok=True)
             rc, out = core.sh([exe, "compiled", "-repo", core.REPO, "-dir", cdir, "-seed", str(ctx.seed), "-tier", ctx.tier], timeout=3000)
